@@ -198,6 +198,18 @@ class _Expr(ast.NodeTransformer):
         self.generic_visit(node)
         return ast.copy_location(ifexp(node.test, node.body, node.orelse), node)
 
+    def visit_BoolOp(self, node):
+        self.generic_visit(node)
+        # (a and b) and c  ->  a and b and c
+        vals = []
+        for v in node.values:
+            if isinstance(v, ast.BoolOp) and type(v.op) is type(node.op):
+                vals.extend(v.values)
+            else:
+                vals.append(v)
+        node.values = vals
+        return node
+
     def visit_Compare(self, node):
         self.generic_visit(node)
         if len(node.ops) == 2 and all(type(o) in _MIRROR for o in node.ops) and isinstance(node.comparators[0], (ast.Name, ast.Constant)):
@@ -394,6 +406,8 @@ class _Stmts:
 
     # the reverse-index dicts of Mailbox map ints to ints (never to None): `d.get(k) is None` is `k not in d`
     _INT_INDEX = ("_uid_to_idx", "_msg_key_to_idx")
+    # module-level tables whose values are record objects (auth.USERS: name -> PWUser), never None
+    _OBJ_TABLES = ("USERS",)
 
     def index_get(self, stmts):
         """x = self._uid_to_idx.get(k) ; if x is None: <jump>   ->   if k not in self._uid_to_idx: <jump> ; x = self._uid_to_idx[k]"""
@@ -405,7 +419,7 @@ class _Stmts:
             if (
                 isinstance(s, ast.Assign) and len(s.targets) == 1 and isinstance(s.targets[0], ast.Name)
                 and isinstance(s.value, ast.Call) and isinstance(s.value.func, ast.Attribute) and s.value.func.attr == "get" and len(s.value.args) == 1 and not s.value.keywords
-                and isinstance(s.value.func.value, ast.Attribute) and s.value.func.value.attr in self._INT_INDEX
+                and ((isinstance(s.value.func.value, ast.Attribute) and s.value.func.value.attr in self._INT_INDEX) or (isinstance(s.value.func.value, ast.Name) and s.value.func.value.id in self._OBJ_TABLES))
                 and isinstance(s.value.args[0], (ast.Name, ast.Constant))
                 and isinstance(nxt, ast.If) and not nxt.orelse and _ends_in_jump(nxt.body)
                 and isinstance(nxt.test, ast.Compare) and len(nxt.test.ops) == 1 and isinstance(nxt.test.ops[0], ast.Is)
@@ -593,11 +607,12 @@ class _Stmts:
             ):
                 t = s.targets[0].id
                 total = self._counts.get(t, 0)
-                if total == 2 and isinstance(nxt, (ast.Expr, ast.Assign, ast.AugAssign, ast.Return)) and _uses(nxt, t) == 1 and _store_count(nxt, t) == 0:
+                in_test = isinstance(nxt, (ast.If, ast.While)) and _uses(nxt.test, t) == 1 and not isinstance(nxt, ast.While)
+                if total == 2 and (isinstance(nxt, (ast.Expr, ast.Assign, ast.AugAssign, ast.Return)) or in_test) and _uses(nxt, t) == 1 and _store_count(nxt, t) == 0:
                     from .inline import _eager_position, _own_exprs
 
                     use = next(x for x in ast.walk(nxt) if isinstance(x, ast.Name) and x.id == t)
-                    if all(_eager_position(e, use) for e in _own_exprs(nxt)) and not _crosses_call_boundary(nxt, use, s.value):
+                    if all(_eager_position(e, use) for e in _own_exprs(nxt)) and not _crosses_call_boundary(nxt.test if in_test else nxt, use, s.value):
                         _replace_node(nxt, use, s.value)
                         self._counts[t] = 0
                         i += 1
@@ -905,6 +920,9 @@ def canon_module(tree: ast.Module, temp_inlining: bool = True) -> ast.Module:
     for n in ast.walk(tree):
         if isinstance(n, (ast.FunctionDef, ast.AsyncFunctionDef)):
             canon_function(n, temp_inlining)
+    # folding temporaries can put a negation in front of what was a named test: normalise expressions once more
+    _mark_tests(tree)
+    tree = _Expr().visit(tree)
     ast.fix_missing_locations(tree)
     return tree
 
